@@ -283,8 +283,9 @@ static void op_val(int mode, const struct ty *src, const struct ty *tgt)
 	const char *vd = rd < 0 ? "refused" : (dst_spilled(tgt) ? "OOB" : "ok");
 	if (rd >= 0) out_text(tgt, out, sizeof(out)); else strcpy(out, "-");
 	int rq = do_conv(mode, src, tgt, 0);
-	if (mode == 0) {
-		/* the converter's return value is the documented destination size: observable */
+	if (mode == 0 || mode == 2 || mode == 3) {
+		/* the converter's return value is the documented destination size, mpt_iterator_consume returns the type code of the
+		 * consumed value: observable */
 		char r1[16], r2[16];
 		if (rd < 0) strcpy(r1, "-"); else snprintf(r1, sizeof(r1), "%d", rd);
 		if (rq < 0) strcpy(r2, "-"); else snprintf(r2, sizeof(r2), "%d", rq);
